@@ -32,7 +32,28 @@ func vC05Full(it Iterator, shape, strides []int, reverse bool, tag string, kf st
 	for k := 0; k < size; k++ {
 		var off int
 		var err error
-		pan := vCatch(func() { off, err = it.Next() })
+		var pan bool
+		switch vCfgStr("step") {
+		case "valid":
+			// an unmasked iterator's NextValid is Next with a skip of one position in the direction of travel
+			skip := 0
+			pan = vCatch(func() { off, skip, err = it.NextValid() })
+			if !pan && err == nil {
+				ws := 1
+				if reverse {
+					ws = -1
+				}
+				vAssertKF(skip == ws || size == 1, tag+"-skip", kf, region)
+			}
+		case "validity":
+			valid := false
+			pan = vCatch(func() { off, valid, err = it.NextValidity() })
+			if !pan && err == nil {
+				vAssertKF(valid, tag+"-valid", kf, region)
+			}
+		default:
+			pan = vCatch(func() { off, err = it.Next() })
+		}
 		vAssertKF(vAnd(!pan, err == nil), tag+"-yields", kf, region)
 		if pan || err != nil {
 			return false
